@@ -292,6 +292,8 @@ void EntityManager::applyCommandPack(TemporalStorage& storage, size_t begin, siz
         const auto index = storage.actions_[begin].create_action_index;
         if (storage.create_actions_.has(index)) {
             final_mask = storage.create_actions_[index].mask;
+            // the entity is created with its dependencies: later commands of the pack act on that set
+            final_mask = final_mask.merge(getExtraComponents(final_mask));
             shared = storage.create_actions_[index].shared;
         }
         if (!entities_.has(entity.id())) {
